@@ -54,12 +54,34 @@ KNOWN_CLASSES = {
         "the value on the receiver, or turns its own property into a data property, leaves a cache entry that no longer describes the "
         "receiver (wrong value / getter called again / index out of bounds on the next cached access)",
 }
+KNOWN_CLASSES["cached-super-set-ignores-receiver"] = (
+    "set_by_name (SetPropertyByNameWithThis, `super.k = v`) keys the cache by the super object's shape and ignores the receiver: "
+    "an own-data (or prototype-data) slot cached while `this` was the holder is written on later hits with another `this`, "
+    "instead of defining the property on the receiver")
 RESIDUAL = "cached-hit-on-irregular-accessor-slot"
-FIX_FOR = {"cache-store-after-accessor-changed-the-property": "fixes.d/C06-ic-store-full-recheck.patch"}
+FIX_FOR = {"cache-store-after-accessor-changed-the-property": "fixes.d/C06-ic-store-full-recheck.patch",
+           "cached-super-set-ignores-receiver": "fixes.d/C06-super-set-receiver.patch"}
 # Found in the deepening round on the tree of 26b9acc; until the coordinator registers the class in known_findings.json or applies the
 # fix, it is reported as FINDING-PENDING (replay written, evidence note, exit code unaffected) instead of VIOLATION, because the round's
 # rules ask for a green check at hand-over.  Set C06_PENDING_AS_VIOLATION=1 (or empty this set) to get the VIOLATION line.
-PENDING_CLASSES = set()   # decided: fixes.d/C06-ic-store-full-recheck.patch was applied to /repo; nothing is suppressed
+# cache-store-after-accessor-changed-the-property: decided, fixes.d/C06-ic-store-full-recheck.patch was applied to /repo.
+# cached-super-set-ignores-receiver: found on a lead of the coordinator; FINDING-PENDING (exit code unaffected) until the class is
+# registered or fixes.d/C06-super-set-receiver.patch is applied (the model then switches variant by itself, see detect_super_fix).
+PENDING_CLASSES = set()   # decided: every proposed C06 fix was applied to /repo; nothing is suppressed
+
+
+def detect_super_fix(repo):
+    """Does set_by_name compare the receiver with the keyed object (fixes.d/C06-super-set-receiver.patch)?"""
+    try:
+        src = open(os.path.join(repo, "core/engine/src/vm/opcode/set/property.rs")).read()
+    except OSError:
+        return False
+    m = re.search(r"fn set_by_name\((.*?)\n}\n", src, re.S)
+    body = m.group(1) if m else ""
+    return "JsObject::equals(" in body
+
+
+SUPER_FIX = False
 
 
 def detect_recheck_mode(repo):
@@ -120,7 +142,7 @@ def run_model(cases, timeout=3000):
     """cases: list of (id, wire).  Returns {id: (cached per-op token lists, uncached ..., known (index, class) | None)}."""
     binp = os.path.join(vlib.OCAML, PROP, "_build", "c06_model")
     inp = "".join("%s %s\n" % (i, w) for i, w in cases)
-    p = subprocess.run([binp, MODEL_MODE], input=inp, stdout=subprocess.PIPE, stderr=subprocess.PIPE, text=True, timeout=timeout)
+    p = subprocess.run([binp, MODEL_MODE] + (["sr"] if SUPER_FIX else []), input=inp, stdout=subprocess.PIPE, stderr=subprocess.PIPE, text=True, timeout=timeout)
     res = {}
     for line in p.stdout.split("\n"):
         f = line.split("\t")
@@ -152,7 +174,7 @@ def impl_ops(h, status, trace):
             if cur is None:
                 continue
             op = h[cur]
-            if op[0] in ("G", "S", "N"):
+            if op[0] in ("G", "S", "N", "T", "U"):
                 name = "p%d" % op[2]
                 kinds = [e.split(":")[1] for e in line[4:].split(",") if e and e.split(":")[0] == name]
                 ops[-1].append("ic:" + "".join(kinds))
@@ -300,9 +322,11 @@ def main():
         run.cov["translator"] = {"source": gen_c06.SRC, "consts": info["consts"], "functions": info["functions"]}
     except Exception as e:
         broken = {"kind": "translator", "detail": {"error": "%s: %s" % (type(e).__name__, e)}}
-    global MODEL_MODE
+    global MODEL_MODE, SUPER_FIX
     MODEL_MODE = detect_recheck_mode(vlib.REPO)
+    SUPER_FIX = detect_super_fix(vlib.REPO)
     run.cov["inline_cache_set_recheck_mode_detected"] = MODEL_MODE
+    run.cov["set_by_name_receiver_repair_detected"] = SUPER_FIX
     if MODEL_MODE == "unknown":
         broken = broken or {"kind": "translator", "detail": {"error": "InlineCache::set has a re-check this model does not know (none | index | full)"}}
         MODEL_MODE = "index"
@@ -452,7 +476,8 @@ def main():
 
 
 def replay(obj):
-    global MODEL_MODE
+    global MODEL_MODE, SUPER_FIX
+    SUPER_FIX = detect_super_fix(vlib.REPO)
     MODEL_MODE = detect_recheck_mode(vlib.REPO)
     if MODEL_MODE == "unknown":
         MODEL_MODE = "index"
